@@ -8,7 +8,7 @@ What the rewritten record decodes to is what the original record decodes to, wit
 plan's glyph map: the outline of a kept glyph is preserved by construction, not only on the sampled fonts.
 (Proofs: Lemmas/SubsetOutline.lean … SubsetOutline7.lean.)
 -/
-import FontVerif.Lemmas.SubsetOutline10
+import FontVerif.Lemmas.SubsetOutline11
 set_option linter.unusedVariables false
 namespace FontVerif.C17Outline
 open FontVerif FontVerif.Subset FontVerif.SubsetOutline
@@ -105,11 +105,23 @@ theorem composite_glyph_not_emptied_when_components_mapped (flags : Nat) (gmap :
 /-- **resubset_simple_glyph_unchanged.**  Re-subsetting idempotence of the per-glyph rewrite, simple glyphs: a record
 that `subset_glyph` wrote non-empty is a fixed point of `subset_glyph` under the same flags (and any glyph map — simple
 glyphs do not consult it): nothing is left to trim, the instruction length is already 0 under NO_HINTING, the overlap bit
-is already set under SET_OVERLAPS_FLAG.  (Composites: oracle `resubset-observations-unchanged` only.) -/
+is already set under SET_OVERLAPS_FLAG. -/
 theorem resubset_simple_glyph_unchanged (flags : Nat) (gmap gmap' : Nat → Option Nat) (d out : Bytes)
     (hs : u16At d 0 < 32768) (h : subsetGlyphBytes flags gmap d = .bytes out) (hne : out ≠ []) :
     subsetGlyphBytes flags gmap' out = .bytes out :=
   simple_resubset_idempotent flags gmap gmap' d out hs h hne
+
+/-- **resubset_composite_glyph_unchanged.**  Re-subsetting idempotence of the per-glyph rewrite, composites: a composite
+that `subset_glyph` wrote non-empty is a fixed point of `subset_glyph` under the same flags and every second glyph map
+that fixes the new glyph ids the first run wrote (the identity plan of a re-subset, see `plan_everything_identity`):
+the flag rewrite is idempotent, the component ids map to themselves, the record is cut at the same place.
+Together with `resubset_simple_glyph_unchanged`: the glyf bytes of a kept glyph do not change when a subset is subset
+again with the same request. -/
+theorem resubset_composite_glyph_unchanged (flags : Nat) (gmap gmap' : Nat → Option Nat) (d out : Bytes)
+    (hs : ¬ u16At d 0 < 32768) (h : subsetGlyphBytes flags gmap d = .bytes out) (hne : out ≠ [])
+    (hid : ∀ o n, gmap o = some n → gmap' (n % 65536) = some (n % 65536)) :
+    subsetGlyphBytes flags gmap' out = .bytes out :=
+  composite_resubset_idempotent flags gmap gmap' d out hs h hne hid
 
 /-! ## non-vacuity -/
 
@@ -149,6 +161,10 @@ example : (Glyf.readComponents 23 (exComposite.drop 10)).getLast?.map (fun c => 
 example : (Glyf.readComponents 23 (exComposite.drop 10)).all (fun c => (exMap c.glyph).isSome) = true := by decide
 
 example : subsetGlyphBytes 0 exMap (exComposite.take 26) = .bytes ((exComposite.take 26).set 13 2 |>.set 19 3) := by decide
+
+/-- `resubset_composite_glyph_unchanged` has instances (identity second map) -/
+example : subsetGlyphBytes 0 (fun g => some g) (exComposite.take 30 |>.set 13 2 |>.set 19 3) =
+    .bytes (exComposite.take 30 |>.set 13 2 |>.set 19 3) := by decide
 
 /-- the hypothesis of the `read_points_fast` clause is satisfiable (3 points, 2 flag bytes) -/
 example : Glyf.resolveCoordsLen [0x3F, 2, 1, 2, 3, 4, 5, 6, 0, 0] 0 3 0 0 = some (2, 3, 3) := by decide
